@@ -29,3 +29,13 @@ Proof.
     + eapply (SProc _ _ _ _ 0%nat 0%nat 0%nat); reflexivity.
   - cbn. repeat split.
 Qed.
+
+(* every worker loop counts a datagram exactly once, after Decode and before encoding, and publishes at most once per iteration
+   (sequence of shared-state statements regenerated from the source, Gen/Workers.v) *)
+From VF Require Model.WorkerDiscipline Gen.Workers.
+Theorem C13_workers_count_and_publish_once : forall p evs, In (p, evs) Gen.Workers.workers -> WorkerDiscipline.worker_ok evs = true.
+Proof.
+  assert (H : forallb (fun x => WorkerDiscipline.worker_ok (snd x)) Gen.Workers.workers = true) by (vm_compute; reflexivity).
+  intros p evs Hin. rewrite forallb_forall in H. exact (H _ Hin).
+Qed.
+Print Assumptions C13_workers_count_and_publish_once.
